@@ -309,7 +309,16 @@ class Gen:
             items = self.deco(items)
             alts.append(('cat', items) if len(items) > 1 else items[0])
         self.in_choice_alt = self.rule_in_choice
-        return ('choice', alts)
+        ch = ('choice', alts)
+        # a rule used inside the alternatives is often used again right after the choice, in an
+        # ordinary context (rules shared between choice alternatives and ordinary contexts)
+        used = set()
+        for a in alts[:-1]:
+            collect_rules(a, used)
+        used = [u for u in used if u in self.names[self.cur_idx + 1:]]
+        if used and rng.random() < 0.6:
+            return ('cat', [('paren', ch), ('rule', rng.choice(sorted(used))), self.fresh_tok()])
+        return ch
 
     def regex(self, depth, top=False):
         rng = self.rng
@@ -326,10 +335,13 @@ class Gen:
         branches = []
         nop = rng.randint(1, 4)
         used = []
+        # operator profiles: mixed, or no infix operator at all (only postfix here, prefix below)
+        profile = rng.choice([['infix', 'infix', 'infix2', 'postfix', 'mixfix']] * 3 + [['postfix']])
+        only_unary = profile == ['postfix']
         for i in range(nop):
             if len(pool) < 3:
                 break
-            kind = rng.choice(['infix', 'infix', 'infix2', 'postfix', 'mixfix'])
+            kind = rng.choice(profile)
             if kind == 'infix':
                 t = pool.pop()
                 used.append(t)
@@ -355,10 +367,12 @@ class Gen:
                 b = ('cat', b[1] + [('rename', rng.choice(['bin', 'foo']))])
                 g.features.add('rename')
             branches.append(b)
-        # prefix
-        if pool and rng.random() < 0.5:
-            t = pool.pop()
-            branches.append(('cat', [('tok', t), ('rule', nm)]))
+        # prefix (interleaved with the other branches when there is no infix operator)
+        npre = rng.randint(1, 2) if only_unary else (1 if rng.random() < 0.5 else 0)
+        for _ in range(npre):
+            if pool:
+                t = pool.pop()
+                branches.insert(rng.randint(0, len(branches)) if only_unary else len(branches), ('cat', [('tok', t), ('rule', nm)]))
         # parenthesised
         if len(pool) >= 2 and rng.random() < 0.5:
             t1, t2 = pool.pop(), pool.pop()
